@@ -2,7 +2,7 @@ use crate::engine::core::ZonePlan;
 use crate::engine::core::column::compression::compression_codec::{
     ALGO_LZ4, CompressionCodec, FLAG_COMPRESSED, Lz4Codec,
 };
-use crate::engine::core::filter::surf_encoding::encode_value;
+use crate::engine::core::filter::surf_encoding::{encode_i64, encode_value};
 use crate::engine::core::filter::surf_trie::SurfTrie;
 use crate::engine::core::zone::candidate_zone::CandidateZone;
 use crate::engine::types::ScalarValue;
@@ -181,7 +181,14 @@ impl ZoneSurfFilter {
                 let mut values: Vec<Vec<u8>> = Vec::new();
                 for ev in &zp.events {
                     if let Some(val) = ev.payload.get(&key) {
-                        if let Some(bytes) = encode_value(val) {
+                        // A fractional value has no key in the i64 lane that integral values and
+                        // every query bound are encoded in (the f64 lane does not order against
+                        // it): index its two integer neighbours instead.
+                        if let Some(f) = val.as_f64().filter(|f| f.is_finite() && f.fract() != 0.0)
+                        {
+                            values.push(encode_i64(f.floor() as i64));
+                            values.push(encode_i64(f.ceil() as i64));
+                        } else if let Some(bytes) = encode_value(val) {
                             values.push(bytes);
                         }
                     }
